@@ -9,7 +9,7 @@ for tier in ("quick", "thorough"):
     if not os.path.exists(p):
         continue
     for l in open(p):
-        m = re.match(r"(s-\S+) property=(\S+) tier=(\S+) rc=(\d+) violations=(\d+) wall=(\d+)s :: (.*)", l)
+        m = re.match(r"((?:s|fix)-\S+) property=(\S+) tier=(\S+) rc=(\d+) violations=(\d+) wall=(\d+)s :: (.*)", l)
         if m:
             res.setdefault(m.group(1), {})[tier] = (int(m.group(4)), m.group(7).strip())
 rows = ["| seed | property | change (as described by its author) | needs | quick check of that property | caught by |", "|---|---|---|---|---|---|"]
